@@ -181,13 +181,22 @@ def make_transit_registry(contracts, exclude=()):
     sf["sbox_open"] = lambda it, k, c: VStr(F_open()(k.z, c.z), "bytes")
     sf["min2"] = lambda it, a, b: VInt(z3.If(a.z < b.z, a.z, b.z))
 
+    # the two handshake texts are *defined* spec functions: sender_hs(k) / receiver_hs(k) are function symbols whose
+    # defining equation (the protocol text) is supplied as a ground instance wherever a proof needs it; a registry with
+    # hs_opaque=True leaves them uninterpreted (strictly fewer hypotheses), which keeps the string solver fast
+    def _hs(it, k, fname, label, info):
+        r = uf(fname, StringS, StringS)(k.z)
+        if not getattr(it.reg, "hs_opaque", False):
+            text = z3.Concat(z3.StringVal(label), hexl_term(it, hkdf_term(it, k.z, z3.IntVal(32), z3.StringVal(info))),
+                             z3.StringVal(" ready\n\n"))
+            it.ctx.assume(r == text)
+        return VStr(r, "bytes")
+
     def sender_hs(it, k):
-        return VStr(z3.Concat(z3.StringVal("transit sender "), hexl_term(it, hkdf_term(it, k.z, z3.IntVal(32), z3.StringVal("transit_sender"))),
-                              z3.StringVal(" ready\n\n")), "bytes")
+        return _hs(it, k, "sender_hs", "transit sender ", "transit_sender")
 
     def receiver_hs(it, k):
-        return VStr(z3.Concat(z3.StringVal("transit receiver "), hexl_term(it, hkdf_term(it, k.z, z3.IntVal(32), z3.StringVal("transit_receiver"))),
-                              z3.StringVal(" ready\n\n")), "bytes")
+        return _hs(it, k, "receiver_hs", "transit receiver ", "transit_receiver")
 
     sf["sender_hs"] = sender_hs
     sf["receiver_hs"] = receiver_hs
@@ -245,6 +254,14 @@ def make_transit_registry(contracts, exclude=()):
             return NONE
         return evs[k][1][2][i]
 
+    def last_bcall_arg(it, name, i):
+        """argument i of the last boundary call named name (None if there is none)"""
+        name, i = it.concrete(name), it.concrete(i)
+        evs = [e for e in it.ctx.trace if e[0] == "bcall" and e[1][1] == name]
+        if not evs or i >= len(evs[-1][1][2]):
+            return NONE
+        return evs[-1][1][2][i]
+
     def n_events(it, name):
         name = it.concrete(name)
         return VInt(sum(1 for e in it.ctx.trace if e[0] == name))
@@ -270,7 +287,7 @@ def make_transit_registry(contracts, exclude=()):
     sf.update({"n_calls": n_calls, "n_returns": n_returns, "call_arg": call_arg, "iter_n_calls": iter_n_calls,
                "iter_call_arg": iter_call_arg, "iter_call_result": iter_call_result, "call_order": call_order,
                "iter_bcall_names": iter_bcall_names, "iter_bcall_arg": iter_bcall_arg, "n_events": n_events,
-               "event_arg": event_arg, "is_method_of": is_method_of})
+               "event_arg": event_arg, "is_method_of": is_method_of, "last_bcall_arg": last_bcall_arg})
     return reg
 
 
